@@ -25,8 +25,9 @@ def cases(tier, rng, run):
         c = gen_ctx.gen_ctx(rng, perturb=(0, 0, 0, 1), tuple_p=0.25, ret_p=0.4)
         if i % 3 == 0:
             out.append(Case(c.ctx_line(), "ctx", {"ctx": c}))
-        style = rng.choice(["pos", "kw", "mixed", "fwd", "kwonly", "posonly"])
-        line = c.call_line("func", style)
+        kind = "method" if rng.random() < 0.2 else "func"
+        style = rng.choice(["pos", "kw", "mixed", "fwd", "kwonly", "posonly"] + (["kwself", "kwself"] if kind == "method" else []))
+        line = c.call_line(kind, style, prov=(("self" if c.scope else "-") if kind == "method" else None))
         r = rng.random()
         if r < 0.3:
             line += "\tD|opts|" + rng.choice(DEFAULTS)
@@ -37,7 +38,7 @@ def cases(tier, rng, run):
             items[k] = "PD|" + items[k][2:]
             extra = rng.choice(["VA|rest|X;X", "VK|options|axis=0;order=1", "VA|rest|X", ""])
             if extra.startswith("VA"):
-                items[1] = "func:pos"
+                items[1] = f"{kind}:pos"
             line = "\t".join(items + ([extra] if extra else []))
         out.append(Case(line, "call", {"ctx": c}))
     # a type alias (ONE annotation object) used as a plain hint and inside a tuple hint of the same call, in both orders, the tuple
